@@ -193,10 +193,7 @@ def stage_t(chk, tier, bindir):
             core.log(t.out[-3000:])
             raise core.ToolError(f"StorageTrace failed on run {ri}: {t.error or t.violated} rc={t.rc}")
         bad = None
-        for line in t.out.splitlines():
-            line = line.strip()
-            if line.startswith('<<"BAD", "') and line.endswith('">>'):
-                bad = json.loads(line[len('<<"BAD", "'):-3].replace('\\"', '"'))
+        bad = t.printed_last("BAD")
         if bad is None:
             core.log(t.out[-2000:])
             raise core.ToolError("StorageTrace did not consume the trace")
